@@ -79,6 +79,8 @@ class Gen:
             pick.extend(r.sample([x for x in atoms.BY_CLASS['invalid'] if x in usable], 1))
         pick = [p for p in dict.fromkeys(pick) if atoms.CATALOGUE[p].cls in allow or atoms.CATALOGUE[p].cls not in
                 ('multi', 'reset')]
+        if len([p for p in pick if atoms.CATALOGUE[p].cls in ('plain', 'pair')]) < 2:
+            pick = ['n:bold', 'n:red'] + pick
         self.atoms = pick[:8] if len(pick) > 8 else pick
         self.string_atoms = [i for i in self.atoms if atoms.CATALOGUE[i].kind in ('name', 'rgbstr', 'intstr')]
         # op weights
@@ -156,9 +158,14 @@ class Gen:
                 out.append(i)
         return out
 
-    def recv_slot(self, world, want_formatted=True):
+    MAXLEN = 40
+
+    def recv_slot(self, world, want_formatted=True, maxlen=None):
         r = self.rng
         cands = self.slots_of(world, (S, A), nonempty=True)
+        if maxlen is not None:
+            small = [i for i in cands if len(world.obs[i].text) <= maxlen]
+            cands = small or [min(cands, key=lambda i: len(world.obs[i].text))] if cands else cands
         if want_formatted:
             fm = [i for i in cands if any(world.obs[i].cells)]
             if fm and r.random() < 0.8:
@@ -204,13 +211,16 @@ class Gen:
                 a, b = b, a
         return a, b
 
-    def operand(self, world, recv_slot=None, allow_text=True):
+    def operand(self, world, recv_slot=None, allow_text=True, maxlen=None):
         r = self.rng
-        if recv_slot is not None and r.random() < self.p_self:
+        maxlen = self.MAXLEN if maxlen is None else maxlen
+        if recv_slot is not None and r.random() < self.p_self and len(world.obs[recv_slot].text) <= maxlen:
             return {'slot': recv_slot}
         if allow_text and r.random() < 0.3:
             return {'text': self.text(0, 4)}
-        cands = self.slots_of(world, (S, A, T))
+        cands = [i for i in self.slots_of(world, (S, A, T)) if len(world.obs[i].text) <= maxlen]
+        if not cands:
+            return {'text': self.text(0, 4)}
         fm = [i for i in cands if any(world.obs[i].cells)]
         if fm and r.random() < 0.7:
             cands = fm
@@ -313,17 +323,17 @@ class Gen:
         return {'op': 'iter', 'r': self.recv_slot(world), 'd': self.slot(), 'pick': self.rng.randrange(8)}
 
     def g_add(self, world):
-        s = self.recv_slot(world)
+        s = self.recv_slot(world, maxlen=self.MAXLEN)
         return {'op': 'add', 'r': s, 'o': self.operand(world, s), 'd': self.slot()}
 
     def g_iadd(self, world):
-        s = self.recv_slot(world)
+        s = self.recv_slot(world, maxlen=self.MAXLEN)
         return {'op': 'iadd', 'r': s, 'o': self.operand(world, s), 'd': self.slot(), 'ip': self.ip()}
 
     def g_join(self, world):
         r = self.rng
         k = r.choice([0, 1, 2, 2, 3, 3, 4])
-        xs = [self.operand(world, None) for _ in range(k)]
+        xs = [self.operand(world, None, maxlen=24) for _ in range(k)]
         if k >= 2 and r.random() < self.p_self + 0.1:
             xs[r.randrange(k)] = xs[r.randrange(k)]
         return {'op': 'join', 'xs': xs, 'cls': A if r.random() < self.p_astr else S, 'd': self.slot()}
@@ -337,7 +347,7 @@ class Gen:
 
     def g_pad(self, world):
         r = self.rng
-        s = self.recv_slot(world)
+        s = self.recv_slot(world, maxlen=self.MAXLEN)
         n = len(world.obs[s].text)
         how = r.choice(['ljust', 'rjust', 'center', 'center', 'zfill'])
         return {'op': 'pad', 'r': s, 'd': self.slot(), 'ip': self.ip(), 'how': how, 'w': max(0, self.width(n)),
@@ -370,11 +380,11 @@ class Gen:
 
     def g_fmt(self, world):
         r = self.rng
-        s = self.recv_slot(world)
+        s = self.recv_slot(world, maxlen=self.MAXLEN)
         n = len(world.obs[s].text)
         op = {'op': 'fmt', 'r': s, 'spec': self.spec(n), 'd': self.slot() if r.random() < 0.3 else None}
         if r.random() < 0.08:
-            op['spec'] = {'raw': r.choice(badops._BAD_SPECS)}
+            op['spec'] = {'raw': r.choice(badops.BAD_STRING_SPECS if self.oracle.prop == 'C12' else badops._BAD_SPECS)}
         if r.random() < 0.5:
             op['flags'] = [r.random() < 0.5, r.random() < 0.5, r.random() < 0.5]
         return op
@@ -462,22 +472,22 @@ class Gen:
 
     def g_replace(self, world):
         r = self.rng
-        s = self.recv_slot(world)
+        s = self.recv_slot(world, maxlen=24)
         old = self.pattern(world.obs[s])
         if not old or (self.oracle.prop != 'C09' and old == ''):
             old = 'a'
         if self.oracle.prop == 'C09' and r.random() < 0.08:
             old = ''
         op = {'op': 'replace', 'r': s, 'd': self.slot(), 'ip': self.ip(), 'old': old,
-              'new': self.operand(world, s if r.random() < 0.3 else None)}
+              'new': self.operand(world, s if r.random() < 0.3 else None, maxlen=6)}
         if r.random() < 0.4:
             op['count'] = r.choice([-1, 0, 1, 2])
         return op
 
     def g_expandtabs(self, world):
         r = self.rng
-        cands = [i for i in self.slots_of(world, (S, A)) if '\t' in world.obs[i].text]
-        s = r.choice(cands) if cands else self.recv_slot(world)
+        cands = [i for i in self.slots_of(world, (S, A)) if '\t' in world.obs[i].text and len(world.obs[i].text) <= 24]
+        s = r.choice(cands) if cands else self.recv_slot(world, maxlen=24)
         op = {'op': 'expandtabs', 'r': s, 'd': self.slot(), 'ip': self.ip()}
         if r.random() < 0.7:
             op['tab'] = r.choice([0, 1, 2, 4])
